@@ -65,6 +65,11 @@ static spec_int spec_days_from_civil(spec_int y, spec_int m, spec_int d)
   return yy * 365 + leaps + cum[mp] + (d - 1);
 }
 
+/* The same two Gregorian rules as side-effect-free macros (loop invariants must not contain function calls).
+ * "y % k == 0" in C is exact divisibility also for negative y, so no floor-modulo is needed here.  m in 1..12. */
+#define SPEC_IS_LEAP_M(y) (((y) % 400 == 0) || (((y) % 100 != 0) && ((y) % 4 == 0)))
+#define SPEC_MAXDAY_M(y, m) (((m) == 4 || (m) == 6 || (m) == 9 || (m) == 11) ? 30 : ((m) == 2) ? (SPEC_IS_LEAP_M(y) ? 29 : 28) : 31)
+
 #ifdef SPEC_NEED_DIV_MODEL
 /* ISO C99 7.20.6.2: "The div ... functions compute numer / denom and numer % denom in a single operation." */
 div_t div(int numer, int denom)
